@@ -77,7 +77,7 @@ Qed.
 
 Lemma fscope_keep W sc e E E' : fscope fl W e E -> keep fl sc E E' -> fscope fl W e E'.
 Proof.
-  intros Hfs Hk f K Hin. destruct (Hfs f K Hin) as (c & p & d & A & B & C). exists c, p, d. split; [exact A | split; [|exact C]].
+  intros Hfs Hk f K Hin HK. destruct (Hfs f K Hin HK) as (c & p & d & A & B & C). exists c, p, d. split; [exact A | split; [|exact C]].
   rewrite (Hk f); [exact B|]. right. unfold fnames. apply in_map_iff. eexists. split; [|exact Hin]. reflexivity.
 Qed.
 
@@ -229,7 +229,7 @@ Proof.
   intros IH IHF IHap g k var sp0 args sp ctx c code v c' e st r st' sc l E stL F ks rk Hev Hlow Har Hfrag Hu Hctx Hrel Hint.
   destruct g as [|g]; [discriminate|].
   apply fun_kind_in in Har.
-  destruct (r_fund _ _ _ _ _ _ _ _ _ _ _ var _ Hrel Har) as (cf & pf & d & Hlkf & Hnthf & Hpf & Hcellf & Hd & Hdk).
+  destruct (r_fund _ _ _ _ _ _ _ _ _ _ _ var _ Hrel Har ltac:(discriminate)) as (cf & pf & d & Hlkf & Hnthf & Hpf & Hcellf & Hd & Hdk).
   assert (Hpk : fd_pk d = ks) by (unfold dkind in Hdk; inversion Hdk; reflexivity).
   assert (Hrk : fd_rk d = rk) by (unfold dkind in Hdk; inversion Hdk; reflexivity). subst ks rk.
   assert (Hvarb : var < bound).
@@ -341,7 +341,7 @@ Proof.
     cbn [frag_fexpr] in Hf.
     destruct (fun_kind fl var) as [Kf|] eqn:Hfk; [|discriminate Hf]. destruct Kf; [discriminate Hf|]. inversion Hf; subst. clear Hf.
     apply fun_kind_in in Hfk.
-    destruct (r_fund _ _ _ _ _ _ _ _ _ _ _ var _ Hrel Hfk) as (cf & pf & d & Hlkf & Hnthf & Hpf & Hcellf & Hd & Hdk).
+    destruct (r_fund _ _ _ _ _ _ _ _ _ _ _ var _ Hrel Hfk ltac:(discriminate)) as (cf & pf & d & Hlkf & Hnthf & Hpf & Hcellf & Hd & Hdk).
     assert (Hvarb : var < bound).
     { destruct (r_flb _ _ _ _ _ _ _ _ _ _ _ Hrel var); [|assumption]. unfold fnames. apply in_map_iff. eexists. split; [|exact Hfk]. reflexivity. }
     destruct g as [|g]; [discriminate Hlow|].
